@@ -9,7 +9,8 @@ import "sync/atomic"
 // harness to observe and park a goroutine at a chosen step.
 //
 // Points: Q1 queue took a task, Q2 queue counted it, Q3 queue handed it over,
-// W1 worker received a task, W2 worker finished it, P1 PushTask entered.
+// W1 worker received a task, W2 worker finished it, P1 PushTask entered,
+// P2 PushTask enqueued its task and is about to return.
 var VerifHook atomic.Pointer[func(point string, lane int, task Task)]
 
 func verifPoint(point string, lane int, task Task) {
